@@ -598,6 +598,21 @@ func (s *Sys) promptCancels() {
 func (s *Sys) stepOnce() bool {
 	ok := s.K.Step()
 	if ok {
+		if n := len(s.K.Trace); n > 0 && strings.HasPrefix(s.K.Trace[n-1], "op/transactions/get/tx") {
+			// a handler's watch-replay read was served: had the controllers already moved the transaction on?
+			name := strings.TrimPrefix(s.K.Trace[n-1], "op/transactions/get/")
+			if i := strings.Index(name, "#"); i >= 0 {
+				name = name[:i]
+			}
+			for _, tx := range s.Rec.Txs {
+				if s.K.Name("tx", string(tx.ID)) == name && (tx.Status.State != configapi.TransactionStatus_PENDING || tx.Status.Phases.Initialize != nil) {
+					s.K.Probe("c08-replay-past-pending")
+					if TxFinal(tx) {
+						s.K.Probe("c08-replay-already-final")
+					}
+				}
+			}
+		}
 		synctest.Wait()
 		s.promptCancels()
 		if s.Rec != nil {
